@@ -1836,3 +1836,786 @@ Proof.
   destruct (fresh_names pi1 l1 pi2 l2) as [_ K]; auto; try (eapply valid_steps_wf; eauto).
   destruct (K E) as [Ef El]. split; [|exact El]. eapply valid_paths_equal; eauto.
 Qed.
+
+(* ------------------------------------------------------------------------------------------ *)
+(** * M. Any admissible naming: expansion is invariant under a one-to-one change of generated names *)
+
+Section Naming.
+(* a correspondence between the names of two programs *)
+Variable Ne : string -> string -> Prop.
+
+Fixpoint erel (e1 e2 : expr) : Prop :=
+  match e1, e2 with
+  | EInt a, EInt b => a = b
+  | ELbl s, ELbl t => Ne s t
+  | EOp o a, EOp p b =>
+      o = p /\ (fix go (l1 l2 : list expr) : Prop :=
+                  match l1, l2 with
+                  | [], [] => True
+                  | x :: r1, y :: r2 => erel x y /\ go r1 r2
+                  | _, _ => False
+                  end) a b
+  | _, _ => False
+  end.
+
+Lemma erel_op o a p b : erel (EOp o a) (EOp p b) <-> o = p /\ Forall2 erel a b.
+Proof.
+  change (erel (EOp o a) (EOp p b)) with
+    (o = p /\ (fix go (l1 l2 : list expr) : Prop :=
+                  match l1, l2 with
+                  | [], [] => True
+                  | x :: r1, y :: r2 => erel x y /\ go r1 r2
+                  | _, _ => False
+                  end) a b).
+  apply and_iff_compat_l. generalize b. clear b. induction a as [|x a IH]; intros b; destruct b as [|y b].
+  - split; intros _; [constructor | exact I].
+  - split; intros H; [contradiction | inversion H].
+  - split; intros H; [contradiction | inversion H].
+  - split; intros H.
+    + destruct H as [H1 H2]. constructor; [exact H1 | now apply IH].
+    + inversion H; subst. split; [assumption | now apply IH].
+Qed.
+
+Lemma erel_is_int e1 e2 : erel e1 e2 -> is_int e1 = is_int e2.
+Proof. destruct e1, e2; simpl; intros H; try contradiction; reflexivity. Qed.
+
+Lemma erel_ints l1 l2 : Forall2 erel l1 l2 -> forallb is_int l1 = forallb is_int l2 /\ (forallb is_int l1 = true -> int_values l1 = int_values l2).
+Proof.
+  induction 1 as [|x y r1 r2 Hxy _ [IH1 IH2]]; simpl; [auto|]. rewrite (erel_is_int _ _ Hxy), IH1. split; [reflexivity|].
+  intros H. apply andb_prop in H as [Hy Hr]. rewrite <- IH1 in Hr. specialize (IH2 Hr). unfold int_values in *. simpl.
+  destruct x, y; simpl in *; try discriminate; try contradiction. now rewrite Hxy, IH2.
+Qed.
+
+(* substitutions that send related names to related expressions *)
+Definition srel2 (t1 t2 : msubst) : Prop :=
+  forall s1 s2, Ne s1 s2 -> match t1 s1, t2 s2 with
+                            | Some a, Some b => erel a b
+                            | None, None => True
+                            | _, _ => False
+                            end.
+
+Lemma eval_new_rel t1 t2 : srel2 t1 t2 -> forall e1 e2 r1, erel e1 e2 -> eval_new t1 e1 = Ok r1 ->
+  exists r2, eval_new t2 e2 = Ok r2 /\ erel r1 r2.
+Proof.
+  intros T. induction e1 as [z|s|o args IH] using expr_ind'; intros e2 r1 R H; destruct e2 as [z2|s2|o2 args2]; simpl in R; try contradiction.
+  - subst. rewrite eval_new_int in *. injection H as <-. eexists. split; [reflexivity|]. reflexivity.
+  - rewrite eval_new_lbl in *. specialize (T _ _ R). destruct (t1 s), (t2 s2); try contradiction; injection H as <-; eexists; split; try reflexivity; auto.
+  - apply (proj1 (erel_op _ _ _ _)) in R as [<- F]. rewrite eval_new_op in *. apply bind_ok in H as (a1 & Hl & Hf).
+    assert (E : exists a2, eval_list t2 args2 = Ok a2 /\ Forall2 erel a1 a2).
+    { apply eval_list_ok in Hl. clear Hf. revert a1 Hl. induction F as [|x y r1' r2' Hxy _ IHF]; intros a1 Hl; inversion Hl; subst.
+      - exists []. split; [reflexivity | constructor].
+      - inversion IH as [|? ? IHx IHr]; subst. destruct (IHx _ _ Hxy H1) as (y' & E1 & E2).
+        destruct (IHF IHr _ H3) as (r' & E3 & E4). exists (y' :: r'). simpl. rewrite E1, E3. split; [reflexivity | constructor; auto]. }
+    destruct E as (a2 & E1 & E2). rewrite E1. simpl. unfold fold_op in *. destruct (erel_ints _ _ E2) as [I1 I2]. rewrite <- I1.
+    destruct (forallb is_int a1) eqn:Hint.
+    + rewrite <- (I2 eq_refl). destruct (apply_op o (int_values a1)); try discriminate. injection Hf as <-. eexists. split; reflexivity.
+    + injection Hf as <-. eexists. split; [reflexivity|]. apply erel_op. auto.
+Qed.
+
+Lemma eval_list_rel t1 t2 : srel2 t1 t2 -> forall l1 l2, Forall2 erel l1 l2 -> forall r1, eval_list t1 l1 = Ok r1 ->
+  exists r2, eval_list t2 l2 = Ok r2 /\ Forall2 erel r1 r2.
+Proof.
+  intros T. induction 1 as [|x y a b Hxy _ IH]; intros r1 H.
+  - simpl in H. injection H as <-. exists []. split; [reflexivity|constructor].
+  - simpl in H. apply bind_ok in H as (x' & Hx & H). apply bind_ok in H as (a' & Ha & H). injection H as <-.
+    destruct (eval_new_rel _ _ T _ _ _ Hxy Hx) as (y' & E1 & E2). destruct (IH _ Ha) as (b' & E3 & E4).
+    exists (y' :: b'). simpl. rewrite E1, E3. split; [reflexivity | constructor; auto].
+Qed.
+
+(* textual substitution of one tree expression under two related bindings *)
+Definition brel (s1 s2 : string -> option expr) : Prop :=
+  forall s, match s1 s, s2 s with Some a, Some b => erel a b | None, None => True | _, _ => False end.
+
+Lemma subst_rel s1 s2 e : brel s1 s2 -> Forall (fun s => Ne s s) (expr_labels e) -> erel (subst s1 e) (subst s2 e).
+Proof.
+  intros B. induction e as [z|s|o args IH] using expr_ind'; intros F; simpl.
+  - reflexivity.
+  - specialize (B s). destruct (s1 s), (s2 s); try contradiction; auto. inversion F; auto.
+  - apply erel_op. split; [reflexivity|]. simpl in F. induction IH as [|a t Ha _ IHt]; simpl; [constructor|].
+    simpl in F. apply Forall_app in F as [Fa Ft]. constructor; auto.
+Qed.
+
+(* label tables with related keys and equal addresses *)
+Definition trel (T1 T2 : list (string * Z)) : Prop := Forall2 (fun x y => Ne (fst x) (fst y) /\ snd x = snd y) T1 T2.
+(* the correspondence is one to one *)
+Definition biinj : Prop := forall k1 k2 s1 s2, Ne k1 k2 -> Ne s1 s2 -> (k1 = s1 <-> k2 = s2).
+
+Lemma trel_get T1 T2 s1 s2 : biinj -> trel T1 T2 -> Ne s1 s2 -> dict_get T1 s1 = dict_get T2 s2.
+Proof.
+  intros B R N. induction R as [|[k1 v1] [k2 v2] T1 T2 [Hk Hv] _ IH]; simpl; [reflexivity|]. simpl in *. subst v2.
+  destruct (String.eqb k1 s1) eqn:E1.
+  - apply String.eqb_eq in E1. apply (B _ _ _ _ Hk N) in E1. apply String.eqb_eq in E1. now rewrite E1.
+  - destruct (String.eqb k2 s2) eqn:E2; [|exact IH]. apply String.eqb_eq in E2. apply (B _ _ _ _ Hk N) in E2.
+    apply String.eqb_neq in E1. contradiction.
+Qed.
+
+Lemma trel_set T1 T2 s1 s2 v : biinj -> trel T1 T2 -> Ne s1 s2 -> trel (dict_set T1 s1 v) (dict_set T2 s2 v).
+Proof.
+  intros B R N. induction R as [|[k1 v1] [k2 v2] T1 T2 [Hk Hv] RT IH]; simpl; [constructor; [split; auto|constructor]|].
+  simpl in *. subst v2. destruct (String.eqb k1 s1) eqn:E1.
+  - apply String.eqb_eq in E1. apply (B _ _ _ _ Hk N) in E1 as E2. apply String.eqb_eq in E2. rewrite E2. constructor; [split; auto|exact RT].
+  - destruct (String.eqb k2 s2) eqn:E2.
+    + apply String.eqb_eq in E2. apply (B _ _ _ _ Hk N) in E2. apply String.eqb_neq in E1. contradiction.
+    + constructor; [split; auto | exact IH].
+Qed.
+
+Lemma exact_eval_rel T1 T2 : biinj -> trel T1 T2 -> forall e1 e2, erel e1 e2 ->
+  forall v, exact_eval (dict_get T1) e1 = Ok v <-> exact_eval (dict_get T2) e2 = Ok v.
+Proof.
+  intros B R. induction e1 as [z|s|o args IH] using expr_ind'; intros e2 E v; destruct e2 as [z2|s2|o2 args2]; simpl in E; try contradiction.
+  - subst. rewrite !exact_eval_int. reflexivity.
+  - rewrite !exact_eval_lbl, (trel_get _ _ _ _ B R E). destruct (dict_get T2 s2); split; intros H; try discriminate; exact H.
+  - apply (proj1 (erel_op _ _ _ _)) in E as [<- F]. rewrite !exact_eval_op.
+    assert (L : forall vs, exact_list (dict_get T1) args = Ok vs <-> exact_list (dict_get T2) args2 = Ok vs).
+    { intros vs. rewrite !exact_list_ok. revert vs. induction F as [|x y a b Hxy _ IHF]; intros vs.
+      - split; intros H; inversion H; constructor.
+      - inversion IH as [|? ? IHx IHr]; subst. split; intros H; inversion H; subst; constructor;
+          try (apply (IHx _ Hxy); assumption); try (apply (IHF IHr); assumption). }
+    split; intros H; apply (proj1 (wrap_exact_ok _ _)) in H; apply bind_ok in H as (vs & H1 & H2); apply (proj2 (wrap_exact_ok _ _));
+      apply L in H1; rewrite H1; exact H2.
+Qed.
+
+
+(* ---- the expansion of two macro-free programs that differ by the correspondence ---- *)
+Hypothesis B : biinj.
+Hypothesis NDollar : Ne "$" "$".
+Hypothesis NWflip : forall k, Ne (wflip_start_label ++ dec k) (wflip_start_label ++ dec k).
+
+Definition lrel (o1 o2 : lop) : Prop :=
+  match o1, o2 with
+  | LFlipJump f j, LFlipJump f' j' => erel f f' /\ erel j j'
+  | LWordFlip a v r, LWordFlip a' v' r' => erel a a' /\ erel v v' /\ erel r r'
+  | LPadding n, LPadding n' => n = n'
+  | LNewSegment s k, LNewSegment s' k' => s = s' /\ k = k'
+  | LReserveBits a, LReserveBits a' => a = a'
+  | _, _ => False
+  end.
+
+Definition crel (c1 c2 : core) : Prop :=
+  c_addr c1 = c_addr c2 /\ Forall2 lrel (c_rops c1) (c_rops c2) /\ trel (c_labels c1) (c_labels c2) /\
+  c_lbladdrs c1 = c_lbladdrs c2 /\ c_segidx c1 = c_segidx c2.
+
+Definition strel (s1 s2 : stmt) : Prop :=
+  match s1, s2 with
+  | SFlipJump f j _, SFlipJump f' j' _ => erel f f' /\ erel j j'
+  | SWordFlip a v r _, SWordFlip a' v' r' _ => erel a a' /\ erel v v' /\ erel r r'
+  | SPad e _, SPad e' _ | SSegment e _, SSegment e' _ | SReserve e _, SReserve e' _ => erel e e'
+  | SLabel n _, SLabel n' _ => Ne n n'
+  | _, _ => False
+  end.
+
+Lemma dollar_srel a : srel2 (subst_dollar [] a) (subst_dollar [] a).
+Proof.
+  intros s1 s2 N. unfold subst_dollar. simpl.
+  destruct (String.eqb s1 "$") eqn:E1, (String.eqb s2 "$") eqn:E2; simpl; auto.
+  - apply String.eqb_eq in E1. apply String.eqb_neq in E2. apply E2. symmetry. apply (B _ _ _ _ NDollar N). now symmetry.
+  - apply String.eqb_eq in E2. apply String.eqb_neq in E1. apply E1. symmetry. apply (B _ _ _ _ NDollar N). now symmetry.
+Qed.
+
+Lemma nil_srel : srel2 (subst_of []) (subst_of []).
+Proof. intros s1 s2 _. exact I. Qed.
+
+Lemma patch_rel r1 r2 a : Forall2 lrel r1 r2 -> Forall2 lrel (patch_last_wflip r1 a) (patch_last_wflip r2 a).
+Proof.
+  induction 1 as [|o1 o2 r1 r2 Ho Hr IH]; simpl; [constructor|].
+  destruct o1, o2; simpl in Ho; try contradiction; constructor; auto. destruct Ho. simpl. auto.
+Qed.
+
+Lemma mem_rel T1 T2 s1 s2 : trel T1 T2 -> Ne s1 s2 -> dict_mem T1 s1 = dict_mem T2 s2.
+Proof. intros R N. unfold dict_mem. now rewrite (trel_get _ _ _ _ B R N). Qed.
+
+Lemma calc_rel c1 c2 e1 e2 err z : trel (c_labels c1) (c_labels c2) -> erel e1 e2 -> calc c1 e1 err = ROk z -> calc c2 e2 err = ROk z.
+Proof.
+  intros R E. unfold calc, labels_env. destruct (exact_eval (dict_get (c_labels c1)) e1) as [v| |] eqn:Ev; try discriminate.
+  intros H. injection H as <-. apply (exact_eval_rel _ _ B R _ _ E) in Ev. now rewrite Ev.
+Qed.
+
+Lemma insert_label_rel c1 c2 n1 n2 a c1' : crel c1 c2 -> Ne n1 n2 -> insert_label c1 n1 a = ROk c1' ->
+  exists c2', insert_label c2 n2 a = ROk c2' /\ crel c1' c2'.
+Proof.
+  intros (A & O & T & L & S) N. unfold insert_label. rewrite <- (mem_rel _ _ _ _ T N).
+  destruct (dict_mem (c_labels c1) n1); [discriminate|]. intros H. injection H as <-. eexists. split; [reflexivity|].
+  repeat split; simpl; auto. - now apply trel_set. - congruence.
+Qed.
+
+Lemma step_core_rel w s1 s2 c1 c2 c1' : strel s1 s2 -> crel c1 c2 -> step_core w [] s1 c1 = ROk c1' ->
+  exists c2', step_core w [] s2 c2 = ROk c2' /\ crel c1' c2'.
+Proof.
+  intros S C H. pose proof C as (A & O & T & L & G).
+  destruct s1 as [f j p|x v r p|e p|n p|? ? ?|? ? ? ? ?|e p|e p]; destruct s2 as [f' j' p'|x' v' r' p'|e' p'|n' p'|? ? ?|? ? ? ? ?|e' p'|e' p'];
+    simpl in S; try contradiction; simpl in H |- *.
+  - destruct S as [S1 S2]. apply rbind_ok in H as (a1 & H1 & H). apply of_eval_new_ok in H1. apply rbind_ok in H as (a2 & H2 & H).
+    apply of_eval_new_ok in H2. injection H as <-. rewrite <- A.
+    destruct (eval_new_rel _ _ (dollar_srel _) _ _ _ S1 H1) as (b1 & E1 & R1). destruct (eval_new_rel _ _ (dollar_srel _) _ _ _ S2 H2) as (b2 & E2 & R2).
+    rewrite E1, E2. simpl. eexists. split; [reflexivity|]. repeat split; simpl; auto. constructor; simpl; auto.
+  - destruct S as (S1 & S2 & S3). apply rbind_ok in H as (a1 & H1 & H). apply of_eval_new_ok in H1. apply rbind_ok in H as (a2 & H2 & H).
+    apply of_eval_new_ok in H2. apply rbind_ok in H as (a3 & H3 & H). apply of_eval_new_ok in H3. injection H as <-. rewrite <- A.
+    destruct (eval_new_rel _ _ (dollar_srel _) _ _ _ S1 H1) as (b1 & E1 & R1). destruct (eval_new_rel _ _ (dollar_srel _) _ _ _ S2 H2) as (b2 & E2 & R2).
+    destruct (eval_new_rel _ _ (dollar_srel _) _ _ _ S3 H3) as (b3 & E3 & R3).
+    rewrite E1, E2, E3. simpl. eexists. split; [reflexivity|]. repeat split; simpl; auto. constructor; simpl; auto.
+  - apply rbind_ok in H as (a1 & H1 & H). apply of_eval_new_ok in H1. apply rbind_ok in H as (n & Hn & H).
+    destruct (eval_new_rel _ _ nil_srel _ _ _ S H1) as (b1 & E1 & R1). rewrite E1. simpl. rewrite (calc_rel _ _ _ _ _ _ T R1 Hn). simpl.
+    rewrite <- A. destruct (n <=? 0)%Z; [discriminate|]. destruct (negb _); [discriminate|]. destruct (_ >? _)%Z; [discriminate|].
+    injection H as <-. eexists. split; [reflexivity|]. repeat split; simpl; auto. constructor; simpl; auto.
+  - unfold eval_name in *. simpl in *. rewrite <- A. eapply insert_label_rel; eauto.
+  - apply rbind_ok in H as (a1 & H1 & H). apply of_eval_new_ok in H1. apply rbind_ok in H as (a & Ha & H).
+    destruct (eval_new_rel _ _ nil_srel _ _ _ S H1) as (b1 & E1 & R1). rewrite E1. simpl. rewrite (calc_rel _ _ _ _ _ _ T R1 Ha). simpl.
+    destruct (negb _); [discriminate|]. unfold insert_segment in *. rewrite <- G, <- (mem_rel _ _ _ _ T (NWflip (c_segidx c1))).
+    destruct (dict_mem _ _); [discriminate|]. injection H as <-. eexists. split; [reflexivity|]. rewrite <- A.
+    unfold crel; simpl. split; [reflexivity | split; [constructor; [simpl; auto | now apply patch_rel] |
+      split; [apply trel_set; [exact B | exact T | exact (NWflip (c_segidx c1))] | split; [assumption | congruence]]]].
+  - apply rbind_ok in H as (a1 & H1 & H). apply of_eval_new_ok in H1. apply rbind_ok in H as (r & Hr & H).
+    destruct (eval_new_rel _ _ nil_srel _ _ _ S H1) as (b1 & E1 & R1). rewrite E1. simpl. rewrite (calc_rel _ _ _ _ _ _ T R1 Hr). simpl.
+    rewrite <- A. destruct (r <? 0)%Z; [discriminate|]. destruct (negb _); [discriminate|].
+    injection H as <-. eexists. split; [reflexivity|]. repeat split; simpl; auto. constructor; simpl; auto.
+Qed.
+
+Lemma strel_prim s1 s2 : strel s1 s2 -> stmt_primitive s1 = true /\ stmt_primitive s2 = true.
+Proof. destruct s1, s2; simpl; intros H; try contradiction; auto. Qed.
+
+Lemma run_ops_rel w D1 D2 rec1 rec2 P1 P2 : Forall2 strel P1 P2 -> forall st1 st2 st1',
+  crel (ps_core st1) (ps_core st2) -> ps_starts st1 = ps_starts st2 ->
+  run_ops w D1 rec1 [] "" P1 st1 = ROk st1' ->
+  exists st2', run_ops w D2 rec2 [] "" P2 st2 = ROk st2' /\ crel (ps_core st1') (ps_core st2') /\ ps_starts st1' = ps_starts st2'.
+Proof.
+  induction 1 as [|s1 s2 P1 P2 Hs _ IH]; intros st1 st2 st1' C S H; simpl in H |- *.
+  - injection H as <-. eauto.
+  - destruct (strel_prim _ _ Hs) as [Q1 Q2]. apply rbind_ok in H as (sa & Ha & H). rewrite (step_op_prim w) in Ha |- * by assumption.
+    unfold on_core in *. apply rbind_ok in Ha as (ca & Hc & Ha). injection Ha as <-.
+    destruct (step_core_rel _ _ _ _ _ _ Hs C Hc) as (cb & Eb & Rb). rewrite Eb. simpl. eapply IH; [| |exact H]; simpl; auto.
+Qed.
+
+End Naming.
+
+(* ---- inlining one tree under two namings gives corresponding macro-free programs ---- *)
+
+Definition stmt_names (s : stmt) : list string :=
+  match s with
+  | SFlipJump f j _ => expr_labels f ++ expr_labels j
+  | SWordFlip a v r _ => expr_labels a ++ expr_labels v ++ expr_labels r
+  | SPad e _ | SSegment e _ | SReserve e _ => expr_labels e
+  | SLabel n _ => [n]
+  | SMacroCall _ args _ => flat_map expr_labels args
+  | SRepCall t _ _ args _ => expr_labels t ++ flat_map expr_labels args
+  end%list.
+
+(* every name written in the program: in an expression or as a declared label *)
+Definition program_names (D : macro_dict) : list string :=
+  flat_map (fun nm => flat_map stmt_names (m_ops (snd nm))) D.
+
+(* the body that the expansion at path pi expands *)
+Fixpoint ends (D : macro_dict) (b0 : list stmt) (pi : path) (body : list stmt) : Prop :=
+  match pi with
+  | [] => body = b0
+  | s :: r => exists m, find_macro D (callee (sp_call s)) = Some m /\ ends D (m_ops m) r body
+  end.
+
+Lemma valid_snoc D : forall pi b0 body s m,
+  valid_from D b0 pi -> ends D b0 pi body -> step_valid body s -> find_macro D (callee (sp_call s)) = Some m ->
+  valid_from D b0 (pi ++ [s])%list /\ ends D b0 (pi ++ [s])%list (m_ops m).
+Proof.
+  induction pi as [|x pi IH]; intros b0 body s m V E S F; simpl in *.
+  - subst body. split; [split; [exact S | exists m; split; [exact F | exact I]] | exists m; auto].
+  - destruct V as [Sx (mx & Fx & Vx)]. destruct E as (mx' & Fx' & Ex). rewrite Fx in Fx'. injection Fx' as <-.
+    destruct (IH _ _ _ _ Vx Ex S F) as [V' E']. split; [split; [exact Sx | exists mx; auto] | exists mx; auto].
+Qed.
+
+Lemma skipn_cons_nth {A} (l : list A) k x r : skipn k l = x :: r -> nth_error l k = Some x /\ skipn (S k) l = r.
+Proof.
+  revert l. induction k as [|k IH]; intros [|y l] H; simpl in *; try discriminate.
+  - injection H as -> ->. auto.
+  - apply IH in H. exact H.
+Qed.
+
+Section NamingInline.
+Variable D : macro_dict.
+Variables f1 f2 : path -> string -> string.
+Variable Ne : string -> string -> Prop.
+Hypothesis WF : wf_tree D = true.
+Hypothesis B : biinj Ne.
+Hypothesis HU : forall s, In s (program_names D) -> Ne s s.
+Hypothesis HG : forall pi l, valid_path D pi -> is_ident l = true -> Ne (f1 pi l) (f2 pi l).
+
+Definition orel (r1 r2 : option (list stmt)) : Prop :=
+  match r1, r2 with
+  | Some P1, Some P2 => Forall2 (strel Ne) P1 P2
+  | None, None => True
+  | _, _ => False
+  end.
+
+Lemma orel_app2 a1 a2 b1 b2 : orel a1 a2 -> orel b1 b2 -> orel (app2 a1 b1) (app2 a2 b2).
+Proof. destruct a1, a2, b1, b2; simpl; try contradiction; auto. intros. now apply Forall2_app. Qed.
+
+Lemma const_value_rel e1 e2 : erel Ne e1 e2 -> const_value e1 = const_value e2.
+Proof.
+  intros E. unfold const_value. pose proof (exact_eval_rel Ne [] [] B (Forall2_nil _) _ _ E) as H.
+  change (dict_get (A:=Z) []) with (fun _ : string => @None Z) in H.
+  destruct (exact_eval (fun _ => None) e1) as [v| |]; destruct (exact_eval (fun _ => None) e2) as [v2| |]; try reflexivity;
+    try (pose proof (proj1 (H v) eq_refl); congruence); try (pose proof (proj2 (H v2) eq_refl); congruence).
+Qed.
+
+Definition HE (exp1 exp2 : macro_name -> list expr -> path -> option (list stmt)) : Prop :=
+  forall mn a1 a2 pi', Forall2 (erel Ne) a1 a2 ->
+    (forall m, find_macro D mn = Some m -> valid_path D pi' /\ ends D (main_ops D) pi' (m_ops m)) ->
+    orel (exp1 mn a1 pi') (exp2 mn a2 pi').
+
+Lemma names_forall (l : list string) : incl l (program_names D) -> Forall (fun s => Ne s s) l.
+Proof. intros H. apply Forall_forall. intros s Hs. apply HU. auto. Qed.
+
+Lemma map_subst_rel s1 s2 args : brel Ne s1 s2 -> incl (flat_map expr_labels args) (program_names D) ->
+  Forall2 (erel Ne) (map (subst s1) args) (map (subst s2) args).
+Proof.
+  intros Bs. induction args as [|a args IH]; intros I; simpl; constructor.
+  - apply subst_rel; [exact Bs|]. apply names_forall. intros x Hx. apply I. simpl. apply in_or_app. auto.
+  - apply IH. intros x Hx. apply I. simpl. apply in_or_app. auto.
+Qed.
+
+Lemma override_brel s1 s2 it i : brel Ne s1 s2 -> brel Ne (override s1 it (EInt i)) (override s2 it (EInt i)).
+Proof. intros Bs s. unfold override. destruct (String.eqb s it); [reflexivity | apply Bs]. Qed.
+
+Section Ops.
+Variables exp1 exp2 : macro_name -> list expr -> path -> option (list stmt).
+Hypothesis Hexp : HE exp1 exp2.
+
+Lemma inline_stmt_rel s1 s2 pi body k s rest :
+  brel Ne s1 s2 -> valid_path D pi -> ends D (main_ops D) pi body -> skipn k body = s :: rest ->
+  wf_stmt s = true -> incl (stmt_names s) (program_names D) ->
+  orel (inline_stmt exp1 s1 pi k s) (inline_stmt exp2 s2 pi k s).
+Proof.
+  intros Bs V E Sk Hw I. destruct (skipn_cons_nth _ _ _ _ Sk) as [Hn _].
+  assert (SR : forall e, incl (expr_labels e) (program_names D) -> erel Ne (subst s1 e) (subst s2 e)).
+  { intros e He. apply subst_rel; [exact Bs | now apply names_forall]. }
+  destruct s as [f j p|x v r p|e p|n p|name args p|times it name args p|e p|e p]; simpl in I |- *.
+  - constructor; [|constructor]. simpl. split; apply SR; intros y Hy; apply I; apply in_or_app; auto.
+  - constructor; [|constructor]. simpl. split; [|split]; apply SR; intros y Hy; apply I.
+    + apply in_or_app; auto.
+    + apply in_or_app; right; apply in_or_app; auto.
+    + apply in_or_app; right; apply in_or_app; auto.
+  - constructor; [|constructor]. simpl. now apply SR.
+  - unfold rename_label. pose proof (Bs n) as Bn. destruct (s1 n) as [a|], (s2 n) as [b|]; try contradiction.
+    + destruct a, b; simpl in Bn; try contradiction; simpl; auto; try (constructor; [exact Bn | constructor]).
+    + simpl. constructor; [|constructor]. simpl. apply HU. apply I. simpl. auto.
+  - apply Hexp; [now apply map_subst_rel|]. intros m Fm.
+    apply (valid_snoc D pi (main_ops D) body (mkstep k (SMacroCall name args p) None) m V E); [|exact Fm].
+    split; [exact Hn | reflexivity].
+  - simpl in Hw. apply andb_prop in Hw as [Hw _]. apply andb_prop in Hw as [Hw Ha]. apply andb_prop in Hw as [Hw _].
+    apply andb_prop in Hw as [_ Hit].
+    assert (It : incl (expr_labels times) (program_names D)) by (intros y Hy; apply I; apply in_or_app; auto).
+    assert (Ia : incl (flat_map expr_labels args) (program_names D)) by (intros y Hy; apply I; apply in_or_app; auto).
+    rewrite (const_value_rel _ _ (SR _ It)). destruct (const_value (subst s2 times)) as [n|]; [|exact Logic.I].
+    assert (U : forall cnt i, (0 <= i)%Z ->
+              orel (unroll exp1 (call_name name args) s1 it args pi k (SRepCall times it name args p) cnt i)
+                   (unroll exp2 (call_name name args) s2 it args pi k (SRepCall times it name args p) cnt i)).
+    { induction cnt as [|cnt IHc]; intros i Hi; simpl; [constructor|]. apply orel_app2; [|apply IHc; lia].
+      apply Hexp; [apply map_subst_rel; [now apply override_brel | exact Ia]|]. intros m Fm.
+      apply (valid_snoc D pi (main_ops D) body (mkstep k (SRepCall times it name args p) (Some i)) m V E); [|exact Fm].
+      split; [exact Hn | exists i; auto]. }
+    apply U. lia.
+  - constructor; [|constructor]. simpl. now apply SR.
+  - constructor; [|constructor]. simpl. now apply SR.
+Qed.
+
+Lemma inline_ops_rel s1 s2 pi body : brel Ne s1 s2 -> valid_path D pi -> ends D (main_ops D) pi body ->
+  forall ops k, skipn k body = ops -> forallb wf_stmt ops = true -> incl (flat_map stmt_names ops) (program_names D) ->
+  orel (inline_ops exp1 s1 pi k ops) (inline_ops exp2 s2 pi k ops).
+Proof.
+  intros Bs V E. induction ops as [|s ops IH]; intros k Sk Hw I; simpl; [constructor|].
+  simpl in Hw. apply andb_prop in Hw as [Hw1 Hw2]. apply orel_app2.
+  - eapply inline_stmt_rel; eauto. intros y Hy. apply I. simpl. apply in_or_app. auto.
+  - apply IH; [exact (proj2 (skipn_cons_nth _ _ _ _ Sk)) | exact Hw2 |]. intros y Hy. apply I. simpl. apply in_or_app. auto.
+Qed.
+End Ops.
+
+Lemma body_names_incl mn m : find_macro D mn = Some m -> incl (flat_map stmt_names (m_ops m)) (program_names D).
+Proof.
+  intros F. destruct (find_macro_in _ _ _ F) as (k & Hin & _). intros y Hy. unfold program_names. apply in_flat_map.
+  exists (k, m). auto.
+Qed.
+
+Lemma lookup_brel (b1 b2 : binding) :
+  Forall2 (fun x y => fst x = fst y /\ erel Ne (snd x) (snd y)) b1 b2 -> brel Ne (lookup b1) (lookup b2).
+Proof.
+  induction 1 as [|[k1 v1] [k2 v2] b1 b2 [Hk Hv] _ IH]; intros s; simpl; [exact I|]. simpl in *. subst k2.
+  destruct (String.eqb k1 s); [exact Hv | apply IH].
+Qed.
+
+Lemma bind_macro_rel m a1 a2 pi : wf_macro m = true -> valid_path D pi -> Forall2 (erel Ne) a1 a2 ->
+  brel Ne (lookup (bind_macro f1 m a1 pi)) (lookup (bind_macro f2 m a2 pi)).
+Proof.
+  intros Hw V F. apply lookup_brel. unfold bind_macro, qualify.
+  unfold wf_macro in Hw. apply andb_prop in Hw as [Hw _]. apply andb_prop in Hw as [Hw _]. apply andb_prop in Hw as [Hw _].
+  apply andb_prop in Hw as [Hid _]. rewrite forallb_forall in Hid.
+  assert (Rb : Forall2 (fun x y : string * expr => fst x = fst y /\ erel Ne (snd x) (snd y))
+                 (combine (m_params m) a1 ++ map (fun l => (l, ELbl (f1 pi l))) (m_locals m))
+                 (combine (m_params m) a2 ++ map (fun l => (l, ELbl (f2 pi l))) (m_locals m))).
+  { apply Forall2_app.
+    - clear Hid. revert a1 a2 F. induction (m_params m) as [|p ps IH]; intros a1 a2 F; simpl; [constructor|].
+      inversion F; subst; simpl; constructor; auto.
+    - assert (Hl : forall l, In l (m_locals m) -> is_ident l = true) by (intros l Hl; apply Hid; apply in_or_app; auto).
+      clear Hid. induction (m_locals m) as [|l ls IH]; simpl; constructor.
+      + simpl. split; [reflexivity|]. apply HG; [exact V | apply Hl; simpl; auto].
+      + apply IH. intros x Hx. apply Hl. simpl. auto. }
+  apply Forall2_app; [exact Rb|]. destruct (String.eqb (m_ns m) ""); [constructor|].
+  clear - Rb. induction Rb as [|x y r1 r2 [H1 H2] _ IH]; simpl; constructor; auto. simpl. split; congruence.
+Qed.
+
+Lemma inline_call_rel n : HE (inline_call f1 D n) (inline_call f2 D n).
+Proof.
+  induction n as [|n IH]; intros mn a1 a2 pi' F Hv; simpl; [exact I|].
+  destruct (find_macro D mn) as [m|] eqn:Fm; [|exact I]. destruct (Hv m eq_refl) as [V E].
+  destruct (find_macro_wf D WF _ _ Fm) as (k & Hk & _). destruct (wf_entry_macro _ _ Hk) as [Hm Hops].
+  eapply (inline_ops_rel _ _ IH); eauto.
+  - now apply bind_macro_rel.
+  - eapply body_names_incl; eauto.
+Qed.
+
+Theorem inline_rel n : orel (inline f1 D n) (inline f2 D n).
+Proof.
+  unfold inline. eapply (inline_ops_rel _ _ (inline_call_rel n) (fun _ => None) (fun _ => None) [] (main_ops D)).
+  - intros s. exact I.
+  - exact I.
+  - reflexivity.
+  - reflexivity.
+  - destruct (main_body_ok D WF) as [H _]. exact H.
+  - unfold main_ops. destruct (find_macro D main_macro_name) as [m|] eqn:Fm; [eapply body_names_incl; eauto | intros y []].
+Qed.
+
+End NamingInline.
+
+(* ---- the correspondence between the code's names and the names of an admissible naming ---- *)
+
+(* the names an inlined program must not generate: what the program itself writes, `$`, and the assembler's own labels *)
+Definition reserved (D : macro_dict) (s : string) : Prop :=
+  In s (program_names D) \/ s = "$" \/ (exists k, s = wflip_start_label ++ dec k) \/ s = start_label "".
+
+(* a naming of the local labels of the expansions of D: different (expansion, label) pairs get different names, and no
+   generated name is a reserved one *)
+Definition admissible_for (D : macro_dict) (fresh : path -> string -> string) : Prop :=
+  (forall pi1 l1 pi2 l2, valid_path D pi1 -> valid_path D pi2 -> is_ident l1 = true -> is_ident l2 = true ->
+                         fresh pi1 l1 = fresh pi2 l2 -> pi1 = pi2 /\ l1 = l2) /\
+  (forall pi l, valid_path D pi -> is_ident l = true -> ~ reserved D (fresh pi l)).
+
+Definition Nrel (D : macro_dict) (f1 f2 : path -> string -> string) (s1 s2 : string) : Prop :=
+  (s1 = s2 /\ (In s1 (program_names D) \/ s1 = "$" \/ exists k, s1 = wflip_start_label ++ dec k)) \/
+  (exists pi l, valid_path D pi /\ is_ident l = true /\ s1 = f1 pi l /\ s2 = f2 pi l).
+(* the same with the start label of the main macro, which finish() may add to both label tables *)
+Definition Nt (D : macro_dict) (f1 f2 : path -> string -> string) (s1 s2 : string) : Prop :=
+  Nrel D f1 f2 s1 s2 \/ (s1 = start_label "" /\ s2 = start_label "").
+
+Lemma dotted_user s : dotted_ident s = true -> user_name s = true.
+Proof. unfold dotted_ident, user_name. intros ->. reflexivity. Qed.
+
+Lemma names_ok_user e s : names_ok e = true -> In s (expr_labels e) -> user_name s = true.
+Proof. unfold names_ok. rewrite forallb_forall. auto. Qed.
+
+Lemma arg_ok_user e s : arg_ok e = true -> In s (expr_labels e) -> user_name s = true.
+Proof. unfold arg_ok. rewrite forallb_forall. intros H Hs. apply dotted_user. auto. Qed.
+
+Lemma stmt_names_user st s : wf_stmt st = true -> In s (stmt_names st) -> user_name s = true.
+Proof.
+  destruct st as [f j p|x v r p|e p|n p|name args p|times it name args p|e p|e p]; simpl; intros Hw Hs.
+  - apply andb_prop in Hw as [H1 H2]. apply in_app_or in Hs as [Hs|Hs]; [exact (names_ok_user _ _ H1 Hs) | exact (names_ok_user _ _ H2 Hs)].
+  - apply andb_prop in Hw as [Hw H3]. apply andb_prop in Hw as [H1 H2].
+    apply in_app_or in Hs as [Hs|Hs]; [exact (names_ok_user _ _ H1 Hs)|].
+    apply in_app_or in Hs as [Hs|Hs]; [exact (names_ok_user _ _ H2 Hs) | exact (names_ok_user _ _ H3 Hs)].
+  - exact (names_ok_user _ _ Hw Hs).
+  - destruct Hs as [<-|[]]. now apply dotted_user.
+  - apply andb_prop in Hw as [Hw _]. apply andb_prop in Hw as [_ Ha]. rewrite forallb_forall in Ha.
+    apply in_flat_map in Hs as (a & Hin & Hs). exact (arg_ok_user _ _ (Ha _ Hin) Hs).
+  - apply andb_prop in Hw as [Hw _]. apply andb_prop in Hw as [Hw Ha]. apply andb_prop in Hw as [Hw _]. apply andb_prop in Hw as [Ht _].
+    rewrite forallb_forall in Ha. apply in_app_or in Hs as [Hs|Hs]; [exact (names_ok_user _ _ Ht Hs)|].
+    apply in_flat_map in Hs as (a & Hin & Hs). exact (arg_ok_user _ _ (Ha _ Hin) Hs).
+  - exact (names_ok_user _ _ Hw Hs).
+  - exact (names_ok_user _ _ Hw Hs).
+Qed.
+
+Lemma program_names_user D s : wf_tree D = true -> In s (program_names D) -> user_name s = true.
+Proof.
+  intros WF H. unfold program_names in H. apply in_flat_map in H as ([k m] & Hin & H). simpl in H.
+  apply in_flat_map in H as (st & Hst & H). unfold wf_tree in WF. rewrite forallb_forall in WF. specialize (WF _ Hin).
+  destruct (wf_entry_macro _ _ WF) as [_ Hops]. rewrite forallb_forall in Hops. eapply stmt_names_user; eauto.
+Qed.
+
+Lemma wflip_label_user k : user_name (wflip_start_label ++ dec k) = true.
+Proof.
+  apply dotted_user. unfold dotted_ident. rewrite string_forall_app. simpl. apply (ident_dotted _ (dec_ident k)).
+Qed.
+
+Lemma ends_with_split suf s : ends_with suf s = true -> exists a, s = a ++ suf.
+Proof.
+  induction s as [|c s IH]; cbn [ends_with]; intros H.
+  - rewrite orb_false_r in H. apply String.eqb_eq in H. exists "". now subst.
+  - apply orb_prop in H as [H|H]; [apply String.eqb_eq in H; exists ""; now subst|]. destruct (IH H) as (a & ->). now exists (String c a).
+Qed.
+
+Lemma start_not_user s : is_start_label s = true -> user_name s = false.
+Proof.
+  intros H. apply ends_with_split in H as (a & ->). unfold user_name, STARTING_LABEL_IN_MACROS_STRING.
+  rewrite string_forall_app. simpl. rewrite andb_false_r. simpl. destruct a as [|c a]; [reflexivity|]. simpl.
+  destruct (Ascii.eqb c "$"); [|reflexivity]. destruct a; reflexivity.
+Qed.
+
+Lemma start_not_nice s : is_start_label s = true -> niceb s = false.
+Proof.
+  intros H. apply ends_with_split in H as (a & ->). unfold niceb. rewrite last_sep_app. reflexivity.
+Qed.
+
+Section Corr.
+Variable D : macro_dict.
+Variable fresh : path -> string -> string.
+Hypothesis WF : wf_tree D = true.
+Hypothesis ADM : admissible_for D fresh.
+
+Lemma U_user s : In s (program_names D) \/ s = "$" \/ (exists k, s = wflip_start_label ++ dec k) -> user_name s = true.
+Proof. intros [H|[->|(k & ->)]]; [exact (program_names_user D s WF H) | reflexivity | apply wflip_label_user]. Qed.
+
+Lemma impl_not_U pi l : is_ident l = true ->
+  ~ (In (impl_fresh pi l) (program_names D) \/ impl_fresh pi l = "$" \/ (exists k, impl_fresh pi l = wflip_start_label ++ dec k)) /\
+  impl_fresh pi l <> start_label "".
+Proof.
+  intros Hl. split.
+  - intros H. apply U_user in H. unfold impl_fresh in H. now rewrite local_label_not_user in H.
+  - apply nice_neq; [now apply local_label_nice | reflexivity].
+Qed.
+
+Lemma Nt_biinj : biinj (Nt D impl_fresh fresh).
+Proof.
+  destruct ADM as [Inj Av].
+  assert (G : forall k pi l, valid_path D pi -> is_ident l = true ->
+            (In k (program_names D) \/ k = "$" \/ (exists n, k = wflip_start_label ++ dec n)) \/ k = start_label "" ->
+            k <> impl_fresh pi l /\ k <> fresh pi l).
+  { intros k pi l V Hl Hk. destruct (impl_not_U pi l Hl) as [A1 A2]. split.
+    - intros ->. destruct Hk; auto.
+    - intros ->. apply (Av pi l V Hl). unfold reserved. destruct Hk as [[H|[H|H]]|H]; auto. }
+  assert (C : forall a b, Nt D impl_fresh fresh a b ->
+            (a = b /\ ((In a (program_names D) \/ a = "$" \/ (exists n, a = wflip_start_label ++ dec n)) \/ a = start_label "")) \/
+            (exists pi l, valid_path D pi /\ is_ident l = true /\ a = impl_fresh pi l /\ b = fresh pi l)).
+  { intros a b [[[E H]|H]|[E1 E2]]; [left; auto | right; exact H | left; subst; auto]. }
+  intros k1 k2 s1 s2 Hk Hs. destruct (C _ _ Hk) as [[-> Fk]|(pk & lk & Vk & Ik & -> & ->)];
+    destruct (C _ _ Hs) as [[-> Fs]|(ps & ls & Vs & Is & -> & ->)].
+  - reflexivity.
+  - destruct (G k2 ps ls Vs Is Fk). split; intros E; exfalso; auto.
+  - destruct (G s2 pk lk Vk Ik Fs). split; intros E; exfalso; auto.
+  - split; intros E.
+    + destruct (fresh_on_valid_paths D _ _ _ _ WF Vk Vs Ik Is E) as [-> ->]. reflexivity.
+    + destruct (Inj _ _ _ _ Vk Vs Ik Is E) as [-> ->]. reflexivity.
+Qed.
+
+End Corr.
+
+(* ---- what the last assembly phase reads of an expansion: the VALUES of the op words under the label table ---- *)
+
+Definition ev (L : list (string * Z)) (e : expr) : option Z := ok_value (exact_eval (dict_get L) e).
+
+Inductive elop :=
+  | EFlipJump (flip jump : option Z)
+  | EWordFlip (addr value ret : option Z)
+  | EPadding (ops_count : Z)
+  | ENewSegment (start wflip_start : Z)
+  | EReserveBits (first_after : Z).
+
+(* FlipJump.get_flip(labels) / get_jump(labels), WordFlip.get_…(labels): None = the expression has no value *)
+Definition eval_lop (L : list (string * Z)) (o : lop) : elop :=
+  match o with
+  | LFlipJump f j => EFlipJump (ev L f) (ev L j)
+  | LWordFlip a v r => EWordFlip (ev L a) (ev L v) (ev L r)
+  | LPadding n => EPadding n
+  | LNewSegment s k => ENewSegment s k
+  | LReserveBits a => EReserveBits a
+  end.
+
+Lemma ev_rel Ne T1 T2 e1 e2 : biinj Ne -> trel Ne T1 T2 -> erel Ne e1 e2 -> ev T1 e1 = ev T2 e2.
+Proof.
+  intros B R E. unfold ev. pose proof (exact_eval_rel Ne T1 T2 B R _ _ E) as H.
+  destruct (exact_eval (dict_get T1) e1) as [v| |]; destruct (exact_eval (dict_get T2) e2) as [v2| |]; try reflexivity;
+    try (pose proof (proj1 (H v) eq_refl); congruence); try (pose proof (proj2 (H v2) eq_refl); congruence).
+Qed.
+
+Lemma eval_lops_rel Ne T1 T2 l1 l2 : biinj Ne -> trel Ne T1 T2 -> Forall2 (lrel Ne) l1 l2 ->
+  map (eval_lop T1) l1 = map (eval_lop T2) l2.
+Proof.
+  intros B R. induction 1 as [|o1 o2 l1 l2 Ho _ IH]; simpl; [reflexivity|]. rewrite IH. f_equal.
+  destruct o1, o2; simpl in Ho; try contradiction; simpl.
+  - destruct Ho as [H1 H2]. now rewrite (ev_rel _ _ _ _ _ B R H1), (ev_rel _ _ _ _ _ B R H2).
+  - destruct Ho as (H1 & H2 & H3). now rewrite (ev_rel _ _ _ _ _ B R H1), (ev_rel _ _ _ _ _ B R H2), (ev_rel _ _ _ _ _ B R H3).
+  - congruence.
+  - destruct Ho; congruence.
+  - congruence.
+Qed.
+
+Lemma exact_eval_agree L1 L2 e : (forall s, In s (expr_labels e) -> L1 s = L2 s) -> exact_eval L1 e = exact_eval L2 e.
+Proof.
+  induction e as [z|s|o args IH] using expr_ind'; intros H.
+  - now rewrite !exact_eval_int.
+  - rewrite !exact_eval_lbl, (H s); [reflexivity | simpl; auto].
+  - rewrite !exact_eval_op. do 2 f_equal. simpl in H. induction IH as [|a t Ha _ IHt]; simpl; [reflexivity|].
+    rewrite Ha, IHt; [reflexivity | |]; intros s Hs; apply H; simpl; apply in_or_app; auto.
+Qed.
+
+Definition lop_labels (o : lop) : list string :=
+  match o with
+  | LFlipJump f j => expr_labels f ++ expr_labels j
+  | LWordFlip a v r => expr_labels a ++ expr_labels v ++ expr_labels r
+  | _ => []
+  end%list.
+
+Lemma eval_lop_agree T1 T2 o : (forall s, In s (lop_labels o) -> dict_get T1 s = dict_get T2 s) -> eval_lop T1 o = eval_lop T2 o.
+Proof.
+  intros H. destruct o; simpl in *; try reflexivity; unfold ev.
+  - rewrite (exact_eval_agree (dict_get T1) (dict_get T2) flip), (exact_eval_agree (dict_get T1) (dict_get T2) jump); auto;
+      intros s Hs; apply H; apply in_or_app; auto.
+  - rewrite (exact_eval_agree (dict_get T1) (dict_get T2) addr), (exact_eval_agree (dict_get T1) (dict_get T2) value),
+      (exact_eval_agree (dict_get T1) (dict_get T2) ret); auto; intros s Hs; apply H; apply in_or_app; auto; right; apply in_or_app; auto.
+Qed.
+
+Lemma erel_dom Ne e1 : forall e2, erel Ne e1 e2 -> Forall (fun s => exists t, Ne s t) (expr_labels e1).
+Proof.
+  induction e1 as [z|s|o args IH] using expr_ind'; intros e2 E; destruct e2 as [z2|s2|o2 args2]; simpl in E; try contradiction; simpl.
+  - constructor.
+  - constructor; [eauto | constructor].
+  - apply (proj1 (erel_op _ _ _ _ _)) in E as [_ F]. induction F as [|x y a b Hxy _ IHF]; simpl; [constructor|].
+    inversion IH; subst. apply Forall_app. split; eauto.
+Qed.
+
+Lemma lrel_dom Ne o1 o2 : lrel Ne o1 o2 -> Forall (fun s => exists t, Ne s t) (lop_labels o1).
+Proof.
+  destruct o1, o2; simpl; intros H; try contradiction; try constructor.
+  - destruct H as [H1 H2]. apply Forall_app. split; eapply erel_dom; eauto.
+  - destruct H as (H1 & H2 & H3). apply Forall_app. split; [eapply erel_dom; eauto|]. apply Forall_app. split; eapply erel_dom; eauto.
+Qed.
+
+(* monotonicity in the correspondence *)
+Lemma erel_mono (N1 N2 : string -> string -> Prop) : (forall a b, N1 a b -> N2 a b) -> forall e1 e2, erel N1 e1 e2 -> erel N2 e1 e2.
+Proof.
+  intros S. induction e1 as [z|s|o args IH] using expr_ind'; intros e2 E; destruct e2 as [z2|s2|o2 args2]; simpl in E; try contradiction.
+  - exact E. - simpl. auto.
+  - apply (proj1 (erel_op _ _ _ _ _)) in E as [<- F]. apply erel_op. split; [reflexivity|].
+    induction F as [|x y a b Hxy _ IHF]; constructor; inversion IH; subst; auto.
+Qed.
+
+Lemma lrel_mono (N1 N2 : string -> string -> Prop) : (forall a b, N1 a b -> N2 a b) -> forall o1 o2, lrel N1 o1 o2 -> lrel N2 o1 o2.
+Proof.
+  intros S o1 o2. destruct o1, o2; simpl; intros H; try contradiction; auto.
+  - destruct H; split; eapply erel_mono; eauto.
+  - destruct H as (H1 & H2 & H3); repeat split; eapply erel_mono; eauto.
+Qed.
+
+Lemma crel_mono (N1 N2 : string -> string -> Prop) : (forall a b, N1 a b -> N2 a b) -> forall c1 c2, crel N1 c1 c2 -> crel N2 c1 c2.
+Proof.
+  intros S c1 c2 (A & O & T & L & G). repeat split; auto.
+  - eapply Forall2_imp; [|exact O]. apply lrel_mono; auto.
+  - eapply Forall2_imp; [|exact T]. intros x y [H1 H2]. auto.
+Qed.
+
+Lemma Forall2_rev' {A B} (R : A -> B -> Prop) l1 l2 : Forall2 R l1 l2 -> Forall2 R (rev l1) (rev l2).
+Proof. induction 1; simpl; [constructor|]. apply Forall2_app; [assumption | constructor; auto]. Qed.
+
+Definition st0 : pstate := mkps init_core [(0%Z, start_label "")].
+
+Lemma resolve_prim_eq w P depth :
+  resolve_macros w (prim_tree P) depth =
+  rbind (run_ops w (prim_tree P) (rec_of w (prim_tree P) (N.to_nat depth)) [] "" P st0)
+        (fun st => rbind (finish st) (fun c => ROk (rev (c_rops c), c_labels c))).
+Proof. unfold resolve_macros, resolve_main. rewrite resolve_macro_aux_eq. reflexivity. Qed.
+
+Lemma run_ops_prim_starts w D' rec' P : Forall (fun s => stmt_primitive s = true) P -> forall st st',
+  run_ops w D' rec' [] "" P st = ROk st' -> ps_starts st' = ps_starts st.
+Proof.
+  induction 1 as [|s P Hs _ IH]; intros st st' H; simpl in H; [now injection H as <-|].
+  apply rbind_ok in H as (sa & Ha & H). rewrite (step_op_prim w) in Ha by exact Hs. unfold on_core in Ha.
+  apply rbind_ok in Ha as (c & _ & Ha). injection Ha as <-. now rewrite (IH _ _ H).
+Qed.
+
+(* C03_inline_any_naming.  Whatever admissible naming the textual inliner uses for the local labels, the inlined
+   program is macro free and expands to ops whose word VALUES under its own label table are exactly the values of the
+   macro program's ops under the macro program's table: the last assembly phase (which reads the ops only through
+   these values) builds the same image.  The two label tables differ by the one-to-one renaming of generated names. *)
+Theorem inline_any_naming w D depth ops lbls fresh P :
+  wf_tree D = true -> admissible_for D fresh ->
+  resolve_macros w D depth = ROk (ops, lbls) ->
+  inline fresh D (N.to_nat depth) = Some P ->
+  Forall (fun s => stmt_primitive s = true) P /\
+  exists ops' lbls', resolve_macros w (prim_tree P) depth = ROk (ops', lbls') /\
+                     map (eval_lop lbls) ops = map (eval_lop lbls') ops'.
+Proof.
+  intros WF ADM Hr Hi.
+  set (Ne := Nrel D impl_fresh fresh). set (NT := Nt D impl_fresh fresh).
+  pose proof (Nt_biinj D fresh WF ADM) as Bt. fold NT in Bt.
+  assert (Sub : forall a b, Ne a b -> NT a b) by (intros; left; assumption).
+  assert (Bn : biinj Ne) by (intros k1 k2 s1 s2 H1 H2; apply Bt; auto).
+  assert (HU : forall s, In s (program_names D) -> Ne s s) by (intros s Hs; left; auto).
+  assert (HG : forall pi l, valid_path D pi -> is_ident l = true -> Ne (impl_fresh pi l) (fresh pi l))
+    by (intros pi l V Hl; right; exists pi, l; auto).
+  assert (ND : Ne "$" "$") by (left; auto).
+  assert (NW : forall k, Ne (wflip_start_label ++ dec k) (wflip_start_label ++ dec k)) by (intros k; left; split; eauto).
+  pose proof (inline_rel D impl_fresh fresh Ne WF Bn HU HG (N.to_nat depth)) as R1. rewrite Hi in R1.
+  destruct (inline impl_fresh D (N.to_nat depth)) as [P0|] eqn:Hi0; [|contradiction]. simpl in R1.
+  destruct (inline_correct w D depth ops lbls P0 WF Hr Hi0) as [F0 (lbls0 & R0 & A0)].
+  assert (FP : Forall (fun s => stmt_primitive s = true) P).
+  { clear - R1. induction R1 as [|a b P0 P Hab _ IH]; constructor; [exact (proj2 (strel_prim _ _ _ Hab)) | exact IH]. }
+  split; [exact FP|].
+  rewrite resolve_prim_eq in R0. apply rbind_ok in R0 as (s1 & M1 & R0). apply rbind_ok in R0 as (cf & Fin1 & R0). injection R0 as <- <-.
+  assert (C0 : crel Ne (ps_core st0) (ps_core st0)).
+  { repeat split; simpl; auto. constructor; [simpl; auto | constructor]. constructor. }
+  destruct (run_ops_rel Ne Bn ND NW w (prim_tree P0) (prim_tree P) (rec_of w (prim_tree P0) (N.to_nat depth))
+              (rec_of w (prim_tree P) (N.to_nat depth)) P0 P R1 st0 st0 s1 C0 eq_refl M1) as (s2 & M2 & C2 & S2).
+  pose proof (run_ops_prim_starts _ _ _ _ F0 _ _ M1) as S1. simpl in S1.
+  (* finish *)
+  unfold finish in Fin1. rewrite S1 in Fin1.
+  set (c1 := mkcore (c_addr (ps_core s1)) (patch_last_wflip (c_rops (ps_core s1)) (c_addr (ps_core s1)))
+                    (c_labels (ps_core s1)) (c_lbladdrs (ps_core s1)) (c_segidx (ps_core s1))) in *.
+  set (c2 := mkcore (c_addr (ps_core s2)) (patch_last_wflip (c_rops (ps_core s2)) (c_addr (ps_core s2)))
+                    (c_labels (ps_core s2)) (c_lbladdrs (ps_core s2)) (c_segidx (ps_core s2))).
+  assert (C12 : crel Ne c1 c2).
+  { destruct C2 as (A & O & T & L & G). repeat split; simpl; auto. rewrite <- A. now apply patch_rel. }
+  assert (Fin2 : exists cf2, finish s2 = ROk cf2 /\ Forall2 (lrel NT) (c_rops cf) (c_rops cf2) /\ trel NT (c_labels cf) (c_labels cf2)).
+  { unfold finish. rewrite <- S2, S1. fold c2. unfold insert_start_labels in Fin1 |- *. pose proof (crel_mono _ _ Sub _ _ C12) as CT.
+    destruct CT as (A & O & T & L & G). rewrite <- L. destruct (existsb (Z.eqb 0) (c_lbladdrs c1)).
+    - injection Fin1 as <-. eexists. split; [reflexivity|]. auto.
+    - apply rbind_ok in Fin1 as (cx & Ix & Fin1). injection Fin1 as <-.
+      assert (NS : NT (start_label "") (start_label "")) by (right; auto).
+      destruct (insert_label_rel NT Bt c1 c2 _ _ 0%Z cx (conj A (conj O (conj T (conj L G)))) NS Ix) as (cy & Iy & (_ & O' & T' & _)).
+      rewrite Iy. simpl. eexists. split; [reflexivity|]. auto. }
+  destruct Fin2 as (cf2 & Fin2 & OT & TT).
+  exists (rev (c_rops cf2)), (c_labels cf2). split.
+  - rewrite resolve_prim_eq, M2. simpl. rewrite Fin2. reflexivity.
+  - rewrite <- (eval_lops_rel NT _ _ _ _ Bt TT (Forall2_rev' _ _ _ OT)).
+    (* the macro program's table and the table of its own inlining agree on every name the ops mention *)
+    assert (Erops : c_rops cf = c_rops c1).
+    { unfold insert_start_labels in Fin1. destruct (existsb (Z.eqb 0) (c_lbladdrs c1)); [now injection Fin1 as <-|].
+      apply rbind_ok in Fin1 as (cx & Ix & Fin1). injection Fin1 as <-. unfold insert_label in Ix.
+      destruct (dict_mem (c_labels c1) (start_label "")); [discriminate|]. now injection Ix as <-. }
+    assert (Dom : Forall (fun o => Forall (fun s => is_start_label s = false) (lop_labels o)) (c_rops cf)).
+    { rewrite Erops. destruct C12 as (_ & O & _). clear - O WF. induction O as [|o1 o2 r1 r2 Ho _ IH]; constructor; [|exact IH].
+      eapply Forall_impl; [|exact (lrel_dom _ _ _ Ho)]. intros s (t & [[_ Hu]|(pi & l & _ & Hl & -> & _)]).
+      - destruct (is_start_label s) eqn:E; [|reflexivity]. apply start_not_user in E.
+        assert (user_name s = true) by (destruct Hu as [H|[->|(k & ->)]]; [exact (program_names_user D s WF H) | reflexivity | apply wflip_label_user]).
+        congruence.
+      - destruct (is_start_label (impl_fresh pi l)) eqn:E; [|reflexivity]. apply start_not_nice in E.
+        unfold impl_fresh in E. rewrite (local_label_nice _ _ Hl) in E. discriminate. }
+    apply map_ext_in. intros o Ho. apply eval_lop_agree. intros s Hs. symmetry. apply A0.
+    rewrite Forall_forall in Dom. apply in_rev in Ho. specialize (Dom _ Ho). rewrite Forall_forall in Dom. auto.
+Qed.
+
+(* the code's own naming is admissible, and so is e.g. the same name behind a tag that no program can write *)
+Lemma impl_admissible D : wf_tree D = true -> admissible_for D impl_fresh.
+Proof.
+  intros WF. split.
+  - intros. eapply fresh_on_valid_paths; eauto.
+  - intros pi l V Hl [H|[H|[H|H]]]; destruct (impl_not_U D WF pi l Hl) as [A1 A2]; auto.
+Qed.
+
+Definition fresh_tagged (pi : path) (l : string) : string := "@" ++ impl_fresh pi l.
+
+Lemma tagged_admissible D : wf_tree D = true -> admissible_for D fresh_tagged.
+Proof.
+  intros WF. split.
+  - unfold fresh_tagged. intros pi1 l1 pi2 l2 V1 V2 H1 H2 E. injection E as E. eapply fresh_on_valid_paths; eauto.
+  - intros pi l V Hl. unfold fresh_tagged.
+    assert (NU : user_name ("@" ++ impl_fresh pi l) = false) by reflexivity.
+    intros [H|[H|[(k & H)|H]]].
+    + apply (program_names_user D _ WF) in H. congruence.
+    + discriminate.
+    + pose proof (wflip_label_user k) as X. rewrite <- H in X. congruence.
+    + discriminate.
+Qed.
